@@ -14,15 +14,50 @@ ROOT = '/w'
 DS = '/w/ds'
 
 
-def new_fs(profile='posix', **kw):
+def new_fs(profile='posix', local=False, **kw):
+    if local:
+        from .localfs import LocalFS
+        return LocalFS()
     fs = SimFS(profile=profile, **kw)
     fs.dirs.add('/w')          # pre-existing, durable parent directory
+    fs.root = ROOT
     return fs
+
+
+def is_local(fs):
+    return getattr(fs, 'use_defaults', False)
+
+
+def ds_path(fs, name='ds'):
+    return fs.root + '/' + name
+
+
+def io(fs, remove=False):
+    """Keyword arguments that route the library's I/O: the simulated
+    filesystem's callables, or nothing at all (library defaults) on LocalFS."""
+    if is_local(fs):
+        return {}
+    kw = {'open_with': fs.open, 'mkdirs': fs.mkdirs}
+    if remove:
+        kw['remove_with'] = fs.rm
+    return kw
+
+
+def open_pf(path, fs):
+    if is_local(fs):
+        return ParquetFile(path)
+    return ParquetFile(path, fs=fs)
+
+
+def cleanup(fs):
+    if is_local(fs):
+        fs.cleanup()
 
 
 def clone_fs(snap, profile='posix', **kw):
     fs = SimFS(profile=profile, **kw)
     fs.restore(snap)
+    fs.root = ROOT
     return fs
 
 
@@ -63,8 +98,9 @@ def do_write(fs, path, df, op, scheme, partition_on, extra=None):
         kw['has_nulls'] = op['has_nulls']
     if extra:
         kw.update(extra)
+    kw.update(io(fs))
     write(path, df, file_scheme=scheme, partition_on=list(partition_on),
-          open_with=fs.open, mkdirs=fs.mkdirs, write_index=False, **kw)
+          write_index=False, **kw)
 
 
 def do_append(fs, path, df, op, scheme, partition_on, pf=None):
@@ -73,14 +109,14 @@ def do_append(fs, path, df, op, scheme, partition_on, pf=None):
     kw = w_opts(op)
     if op.get('entry') == 'wrg':
         if pf is None:
-            pf = ParquetFile(path, fs=fs)
+            pf = open_pf(path, fs)
         pf.write_row_groups(df, kw.get('row_group_offsets'),
                             compression=kw.get('compression'),
-                            open_with=fs.open, mkdirs=fs.mkdirs,
-                            stats=kw.get('stats', 'auto'))
+                            stats=kw.get('stats', 'auto'), **io(fs))
         return pf
+    kw.update(io(fs))
     write(path, df, file_scheme=scheme, partition_on=list(partition_on),
-          open_with=fs.open, mkdirs=fs.mkdirs, append=True, **kw)
+          append=True, **kw)
     return None
 
 
@@ -137,7 +173,7 @@ class ReaderFailed(Exception):
 
 
 def _read_all(fs, path):
-    pf = ParquetFile(path, fs=fs)
+    pf = open_pf(path, fs)
     df = pf.to_pandas()
     canon = frames.canon_frame(df)
     return {
